@@ -123,14 +123,27 @@ func c02MapsWritten(c *Ctx, ge *GuardEngine) {
 		n := 0
 		where := ""
 		var skipped []string
+		var condOnly []string // insertions made under exactly one condition
 		for _, cf := range cs {
 			if cf.Name == "mapupdate" && cf.Args[0] == "make" && re.MatchString(cf.Args[1]) {
 				if bad := unexpectedCtx(cf.Ctx, nil, cf.Args); len(bad) > 0 {
 					skipped = append(skipped, c.P.Pos(cf.Pos)+" only when "+strings.Join(bad, " && "))
+					if len(bad) == 1 {
+						condOnly = append(condOnly, bad[0])
+					}
 					continue
 				}
 				n++
 				where = c.P.Pos(cf.Pos)
+			}
+		}
+		// two insertions under complementary conditions (a fast path and a slow path, each with its own map) cover every case
+		for i := 0; i < len(condOnly) && n < r.min; i++ {
+			for j := i + 1; j < len(condOnly); j++ {
+				if negatedDesc(condOnly[i], condOnly[j]) {
+					n++
+					break
+				}
 			}
 		}
 		c.Check(n >= r.min, "dup-map-written", r.id, where, ifElse(n >= r.min, "the duplicate-detection map is written under key "+r.key, fmt.Sprintf("no unconditional insertion of %s into the transaction-local duplicate map (%v): the duplicate test can never fire", r.key, skipped)))
